@@ -1,9 +1,12 @@
-//! stub — not built yet
+//! C05 — sender monitor. Part 1: every segment emitted in every tcp2 execution (both real
+//! endpoints monitored, see tcp2::on_emit). Part 2 (tcp1 sender mode, adversarial peer): TODO.
 use crate::core::*;
-pub fn run(_tier: Tier) -> i32 {
-    eprintln!("harness not built yet");
-    2
+
+pub fn run(tier: Tier) -> i32 {
+    let mut rep = Report::new("C05", tier);
+    crate::tcp2::explore_all(&mut rep, tier, &["C05/", "panic/"]);
+    rep.finish()
 }
-pub fn replay(_art: &serde_json::Value) -> i32 {
-    2
+pub fn replay(art: &serde_json::Value) -> i32 {
+    crate::tcp2::replay_c01(art)
 }
